@@ -345,7 +345,7 @@ Proof. exact data_premises. Qed.
 
 (* the executable model does compute the expected transforms (exact rationals) *)
 Example C18_model_runs :
-  option_map (map QArith_base.Qred) (impose_variance NumQ Qsqrt_approx (QArith_base.Qmake 4 1)
+  option_map (map Qreduction.Qred) (impose_variance NumQ Qsqrt_approx (QArith_base.Qmake 4 1)
      [QArith_base.Qmake 1 1; QArith_base.Qmake 2 1; QArith_base.Qmake 3 1]
      (Some [QArith_base.Qmake 1 1; QArith_base.Qmake 0 1; QArith_base.Qmake 1 1]))
   = Some [QArith_base.Qmake 0 1; QArith_base.Qmake 2 1; QArith_base.Qmake 4 1].
